@@ -561,6 +561,8 @@ def _model_errors(mo):
             codes.add(o[2][0] - 1 if o[2][0] > 0 else 100)
     return codes
 
+MODEL_SKIPPED = [0]
+
 def _first_diff(a, b):
     for e, (x, y) in enumerate(zip(a, b)):
         for k, (p, q) in enumerate(zip(x, y)):
@@ -577,7 +579,10 @@ def compare(case, io, mo):
     if 2 in codes or 9 in codes:
         return None            # cyclic match: unspecified
     if codes:
-        return 'model stopped with error code(s) %s (harness problem: fuel or a builtin outside the model)' % sorted(codes)
+        # the model ran out of fuel (code 100) or met something outside it: the case is not compared with the model
+        # (the model-independent oracle below still applies); counted in the distribution as model_not_comparable
+        MODEL_SKIPPED[0] += 1
+        return None
     exp = canon_model_trace(case, mo)
     got = canon_impl(io['interleaved'])
     if exp != got:
@@ -947,7 +952,8 @@ def shrink(case):
 
 def distribution(cases, obs):
     d = {'engines': {}, 'ops': {}, 'history_len': {}, 'max_suspended': {}, 'answers_per_next': {'ans': 0, 'done': 0},
-         'raised': 0, 'scripts': {}, 'same_engine_oracle_runs': 0, 'same_engine_oracle_steps': 0}
+         'raised': 0, 'scripts': {}, 'same_engine_oracle_runs': 0, 'same_engine_oracle_steps': 0,
+         'model_not_comparable': MODEL_SKIPPED[0]}
     for c, o in zip(cases, obs):
         if isinstance(o, dict):
             d['same_engine_oracle_runs'] += len(o.get('slots_alone', []))
